@@ -130,9 +130,11 @@ def calc_j2x(m: theory.Theory, x: float, eta: float, Q2: float):
         else:
             raise Exception('eta has to be either 0 or equal to x')
         # evolution operators
-        # DVCS is specified now just so that msbar evolution works properly
-        evola_si = evolution.evolop(m, j, Q2, 'DVCS')     # 2x2
-        evola_ns = evolution.evolopns(m, j, Q2, 'DVCS')   # 1x1, NSP
+        # In the forward limit evolution is diagonal (DGLAP); the non-diagonal
+        # msbar term of the DVCS operator belongs to the eta=x case only
+        process_class = 'DIS' if eta < 1e-8 else 'DVCS'
+        evola_si = evolution.evolop(m, j, Q2, process_class)     # 2x2
+        evola_ns = evolution.evolopns(m, j, Q2, process_class)   # 1x1, NSP
         zero_right = np.zeros((evola_ns.shape[0], 2, 2, 1))
         zero_down = np.zeros((evola_ns.shape[0], 2, 1, 2))
         evola_ns = evola_ns.reshape((evola_ns.shape[0], 2, 1, 1))
